@@ -526,6 +526,18 @@ Theorem C08_run_of_done : forall c pre tail ls st s, parse_loop c (pre ++ tail) 
 Proof. exact run_of_done. Qed.
 Print Assumptions C08_run_of_done.
 
+(** the loop only hands over states with [flag_subcmd_skip = 0]: the hypothesis [fs_skip st = 0] of the spelling
+    theorems holds at every state a prefix leads to (the line starts from [ps_new]) *)
+Theorem C08_step_keeps_skip0 : forall c rest tok ls st ls1 st1,
+  fs_skip st = 0 -> step c rest tok ls st = SGo ls1 st1 -> fs_skip st1 = 0.
+Proof. exact step_fs. Qed.
+Print Assumptions C08_step_keeps_skip0.
+
+Theorem C08_run_keeps_skip0 : forall c pre tail ls st ls' st',
+  fs_skip st = 0 -> run c pre tail ls st = inl (ls', st') -> fs_skip st' = 0.
+Proof. exact run_fs. Qed.
+Print Assumptions C08_run_keeps_skip0.
+
 Theorem C08_run_app : forall c p q tail ls st,
   run c (p ++ q) tail ls st =
   match run c p (q ++ tail) ls st with
@@ -739,7 +751,7 @@ Theorem C08_long_space_vs_eq_anywhere : forall c0 bin pre l v a r tokA tokB rest
   run c pre (tokA :: rest) ls_top ps_new = inl (ls', st') ->
   flag_site c ls' tokA -> flag_site c ls' tokB ->
   to_long tokA = Some (l, true, Some v) -> to_long tokB = Some (l, true, None) ->
-  lookup_long c l = Some a -> single_opt c a r -> plain_value a v -> fs_skip st' = 0 ->
+  lookup_long c l = Some a -> single_opt c a r -> plain_value a v ->
   react c (Some ILong) SCmdLine a [v] None st' = ROk x0 ->
   parse_top c0 (bin :: pre ++ tokA :: rest) = parse_top c0 (bin :: pre ++ tokB :: v :: rest).
 Proof. exact long_space_vs_eq_anywhere. Qed.
@@ -753,7 +765,7 @@ Theorem C08_cluster_vs_singles_anywhere : forall c0 bin pre chs ch0 rest ls' st'
   (forall ls, pos_counter c ((45 :: ch0 :: chs) :: rest) ls = pos_counter c (map (fun ch => [45; ch]) (ch0 :: chs) ++ rest) ls) ->
   run c pre ((45 :: ch0 :: chs) :: rest) ls_top ps_new = inl (ls', st') ->
   Forall (fun ch => ch < 128 /\ ch <> 45 /\ exists a, get_short c ch = Some a /\ a_takes_value a = false) (ch0 :: chs) ->
-  l_trailing ls' = false -> l_pst ls' = PSValuesDone -> no_hyphen_pos c (l_pos ls') -> fs_skip st' = 0 ->
+  l_trailing ls' = false -> l_pst ls' = PSValuesDone -> no_hyphen_pos c (l_pos ls') ->
   parse_top c0 (bin :: pre ++ (45 :: ch0 :: chs) :: rest) =
   parse_top c0 (bin :: pre ++ map (fun ch => [45; ch]) (ch0 :: chs) ++ rest).
 Proof. exact cluster_vs_singles_anywhere. Qed.
